@@ -5,6 +5,7 @@ CONSTANTS
   Stems = {"def"}
   SupTpls = {FALSE, TRUE}
   NsVals = {FALSE, TRUE}
+  Shapes = {"plain", "sibling", "rsibling"}
   Wipes = FALSE
   PFiles = {"tplB", "tplU", "supB", "supU", "supUx", "dsdlR", "dsdlD", "dsdlX"}
   MaxLo = 0
@@ -15,6 +16,7 @@ CONSTANTS
   QuickOnly = FALSE
   FwdOmitToList = TRUE
   ListDeps = TRUE
+  OwnByPrefix = FALSE
   ListUserSup = TRUE
 INVARIANT Refines
 INVARIANT DomainAsPredicted
